@@ -3,7 +3,7 @@
 (* expected output is DocCore's rendering of the document with the faulty   *)
 (* elements removed; ancestor/self/cyclic use references are faults of the  *)
 (* use element.                                                             *)
-EXTENDS Rat, Sequences, TLC, FiniteSets
+EXTENDS Rat, Sequences, TLC, FiniteSets, Json, IOUtils
 CONSTANTS Full, MaxTok, NFaults,
           MinTok     \* faults are injected into documents of at least this many tokens (1 = all; larger in simulation mode)
 VARIABLES doc, faults, out, cyc     \* cyc = the cyclic use elements of the closed document (faulty without any injected text)
@@ -91,6 +91,12 @@ Inject == /\ Len(faults) < NFaults /\ Len(doc) >= MinTok
 Init == /\ doc \in {<<Root>>} \cup CycleSeeds /\ faults = <<>> /\ out = Ref(doc, <<>>)
         /\ cyc = SetSeq(DF!CyclicUses(Close(doc)))
 Next == Build \/ Inject
+\* generated documents with faults chosen by the harness (harness/docgen.py): TLC evaluates the reference rendering
+GenDocs == JsonDeserialize(IOEnv.DOCS_FILE)
+InitGen == \E i \in 1..Len(GenDocs) : /\ doc = GenDocs[i].doc /\ faults = GenDocs[i].faults
+                                       /\ out = Ref(GenDocs[i].doc, GenDocs[i].faults)
+                                       /\ cyc = SetSeq(DF!CyclicUses(Close(GenDocs[i].doc)))
+NextGen == FALSE /\ UNCHANGED vars
 \* simulation mode: deeper documents, up to NFaults faults
 Emit == (faults # <<>> \/ cyc # <<>>) => PrintT(<<"CASE", doc, faults, out, cyc>>)
 \* removing faulty elements keeps the document well formed, and what is rendered then is part of what the fault-free document renders or depends on removed definitions
